@@ -783,7 +783,11 @@ func itemMessage(pt *ptype, seed int64, o buildOpts, r *rand.Rand, write func(p 
 	d := sectionsOf(pt)
 	plan := &minPlan{counts: map[string]int{}}
 	if len(d.seen) > 0 && r.Intn(4) > 0 {
-		plan = d.planFor(d.seen[r.Intn(len(d.seen))], 1+r.Intn(2))
+		n := 1 + r.Intn(2)
+		if o.nFixed <= 2 && r.Intn(3) == 0 {
+			n = 255 // a long section inside a record / an inner pack (only where few of them are built)
+		}
+		plan = d.planFor(d.seen[r.Intn(len(d.seen))], n)
 	}
 	return makeMessageOf(&instance{pt: pt, seed: seed, min: plan}, write)
 }
@@ -1339,14 +1343,11 @@ func Run(c *core.Ctx) error {
 	if err := runCounts(c); err != nil {
 		return err
 	}
-	if c.WantGen("life") || c.WantGen("hold") {
-		lt := c.Trace("c03_life", "Trace_PackCodec")
-		if err := runLife(c, lt); err != nil {
-			return err
-		}
-		if err := runHold(c, lt); err != nil {
-			return err
-		}
+	if err := runLife(c); err != nil {
+		return err
+	}
+	if err := runHold(c); err != nil {
+		return err
 	}
 	if err := runMinimal(c); err != nil {
 		return err
